@@ -382,3 +382,43 @@ void drv_hist_qf(int tier, unsigned long seed, const char *extra) {
     rec_quiesce();
   }
 }
+
+/* scalar_ext: scalar arguments (unsigned long counts, indices, exponents) at the ends of their type, for the functions where such a call is cheap
+   and defined: a factor step / root index / bit index / shift count of 2^32, 2^63, ULONG_MAX-1, ULONG_MAX and values next to the operand's own size.
+   (The boundary tables of the other drivers stay inside ranges whose results are small; a comparison that wraps at the end of the type never sees them.) */
+void drv_scalar_ext(int tier, unsigned long seed, const char *extra) {
+  shard_t sh = shard_parse(extra); long x = 0; int vi, j;
+  static const uint64_t BIG[] = {0x7fffffffUL, 0x80000000UL, 0xffffffffUL, 0x100000000UL, 0x7fffffffffffffffUL, 0x8000000000000000UL, 0xfffffffffffffffeUL, 0xffffffffffffffffUL};
+  static const uint64_t NS[] = {0, 1, 2, 3, 5, 7, 15, 255, 65535, 0xffffffffUL, 0x100000001UL, 0xfffffffffffffffeUL, 0xffffffffffffffffUL, 1000003};
+  for (vi = 0; vi < 14; vi++) {
+    x++; if (!MINE(sh, x)) continue;
+    if (sh.pure && vi > 3) continue;
+    rec_reset("scalar_ext", x, seed);
+    for (j = 0; j < 5; j++) callf("mpz_init", j);
+    for (j = 0; j < 8; j++) { uint64_t n = NS[vi], m = BIG[j];
+      /* multifactorial with a step at or beyond n: a single factor (or two) */
+      if (m >= n / 4) callf("mpz_mfac_uiui", 0, n, m);      /* at most four factors */
+      if (n > 2) { callf("mpz_mfac_uiui", 0, n, n - 1); callf("mpz_mfac_uiui", 0, n, n); if (n < ~(uint64_t)0) callf("mpz_mfac_uiui", 0, n, n + 1); }
+      if (m >= n / 2 + 1 && m < n) callf("mpz_mfac_uiui", 0, n, m);
+      /* binomials at the ends of k */
+      callf("mpz_bin_uiui", 0, m, (uint64_t)0); callf("mpz_bin_uiui", 0, m, (uint64_t)1); callf("mpz_bin_uiui", 0, m, m); callf("mpz_bin_uiui", 0, m, m - 1); if (n < m || n - m <= 2) callf("mpz_bin_uiui", 0, n, m); callf("mpz_bin_uiui", 0, m, (uint64_t)2);
+      callf("mpz_set_ui", 1, n); callf("mpz_bin_ui", 0, 1, m > 40 ? (uint64_t)(m % 3) : m); callf("mpz_neg", 1, 1); callf("mpz_bin_ui", 0, 1, (uint64_t)(m % 4));
+      /* powers with exponent 0 / 1 of extreme bases */
+      callf("mpz_ui_pow_ui", 0, m, (uint64_t)0); callf("mpz_ui_pow_ui", 0, m, (uint64_t)1); callf("mpz_ui_pow_ui", 0, m, (uint64_t)2); callf("mpz_ui_pow_ui", 0, (uint64_t)(n & 1), m); callf("mpz_ui_pow_ui", 0, (uint64_t)0, m);
+      /* root index far above the bit length */
+      callf("drv_rndz", 1, 1 + (int)rnd_below(3), (int)rnd_below(NKINDS), 0);
+      callf("mpz_root", 0, 1, m); callf("mpz_nthroot", 0, 1, m); callf("mpz_rootrem", 0, 2, 1, m); if (m & 1) { callf("mpz_neg", 1, 1); callf("mpz_root", 0, 1, m); callf("mpz_rootrem", 0, 2, 1, m); callf("mpz_neg", 1, 1); }
+      callf("mpz_set_ui", 3, n); callf("mpz_root", 0, 3, m);
+      /* shift counts and bit indices beyond any operand */
+      callf("drv_rndz", 1, 1 + (int)rnd_below(3), (int)rnd_below(NKINDS), (int)(j & 1));
+      callf("mpz_tdiv_q_2exp", 0, 1, m); callf("mpz_fdiv_q_2exp", 0, 1, m); callf("mpz_cdiv_q_2exp", 0, 1, m); callf("mpz_tdiv_r_2exp", 0, 1, m);
+      callf("mpz_divisible_2exp_p", 1, m); callf("mpz_set", 2, 1); callf("mpz_congruent_2exp_p", 1, 2, m); callf("mpz_set_ui", 2, n); callf("mpz_congruent_2exp_p", 1, 2, m);
+      callf("mpz_tstbit", 1, m); callf("mpz_scan0", 1, m); callf("mpz_scan1", 1, m);
+      callf("mpz_set_ui", 4, (uint64_t)0); callf("mpz_scan1", 4, m); callf("mpz_scan0", 4, m); callf("mpz_tstbit", 4, m);
+      if (SIZ(Zp[1]) < 0) callf("mpz_neg", 1, 1);
+      callf("mpz_clrbit", 1, m);                              /* a clear bit of a non-negative value: nothing to do (and nothing to allocate) */
+    }
+    for (j = 0; j < 5; j++) callf("mpz_clear", j);
+    rec_quiesce();
+  }
+}
